@@ -17,7 +17,8 @@
 (* rejected for a reserved name.                                             *)
 EXTENDS Naturals, Sequences, FiniteSets, TLC
 
-CONSTANTS NU, UIn, Seeded, InitName, DetachSeed, MaxModels, Atoms
+CONSTANTS NU, UIn, Seeded, InitName, DetachSeed, MaxModels, Atoms,
+          UserSeeded   \* objects that need a seed and read it from an input the user wired in (no model seed node)
 
 U == 1..NU
 VARIABLES name,      \* [U -> STRING], "" = unnamed
@@ -85,6 +86,11 @@ Build(copy) ==
      IF \E o \in C : seedin[o]
         \* the attached `_model_<n>_seed` input is a recursive input with a reserved name
      THEN rej' = "reserved_name" /\ UNCHANGED <<name, owner, seedin, gb, models, nmodels, popped, snap, rt>>
+     ELSE IF \E o \in C \cap UserSeeded : owner[o] # 0
+        \* as coded: the seed inputs of every node that needs a seed are re-set (the user's own input wins), which a
+        \* node frozen in a live model refuses - after the missing names were filled in
+     THEN /\ rej' = "frozen" /\ name' = nm
+          /\ UNCHANGED <<owner, seedin, gb, models, nmodels, popped, snap, rt>>
      ELSE IF \E a, b \in C : a # b /\ nm[a] = nm[b]
      THEN \* names were already filled in on the user's objects (observable)
           /\ rej' = "duplicate_names" /\ name' = nm
